@@ -141,6 +141,7 @@ func (r *UnifiedMemoryModelRegistry) RegisterModels(ctx context.Context, endpoin
 // unifyModelsAsync performs model unification in the background
 func (r *UnifiedMemoryModelRegistry) unifyModelsAsync(ctx context.Context, endpointURL string, models []*domain.ModelInfo, generation uint64) {
 	verifhook.Point("registry.unify", endpointURL)
+	defer verifhook.Point("registry.unified", endpointURL)
 	r.unificationMutex.Lock()
 	defer r.unificationMutex.Unlock()
 
